@@ -7,6 +7,7 @@
   produce - so clean-up rewrites, alternatives, any dataset and any query are covered at once.
 -/
 import TrVerif.Proofs.Emit
+import TrVerif.Props.C01
 namespace Tr
 
 /-- **C06.** For every access step `acc`, every non-empty list of legs (each with an enter and
@@ -123,5 +124,22 @@ example : exLegs ≠ [] ∧ AllLegs exLegs ∧ (∀ l ∈ exLegs, ∀ e, l.enter
   · intro l hl e he; simp [exLegs] at hl; rcases hl with rfl | rfl <;> (simp at he; subst he; decide)
 
 example : (emit Dataset.empty 180 700 ([{ walk := 60, dist := 50 }] ++ exLegs ++ [{ walk := 30, dist := 20 }])).totalTravelTime = 1030 := by decide
+
+/-- **C06 for every returned route.**  Every route the single calculation returns on a
+    well-formed dataset satisfies all identities of `Totals`, with the minimum waiting time in
+    force per trip (`mwOfTrip`: 0 for `transferable` lines, the query's value otherwise); the
+    counts and walking totals hold when the journey rides no `transferable` line. -/
+theorem C06_route (ds : Dataset) (hwf : WFData ds) (p : Params) (hmw : 0 ≤ p.minWait) (hmt : 0 ≤ p.maxTransfer)
+    {r : Route} (h : calculateSingle ds p = .ok r) :
+    ∃ legs : List JStep, Totals (ds.mwOfTrip p) (NoXfer (ds.restrict (ds.connSetOf (ds.scenarioOf p))) legs) r := by
+  have hsub := connSetOf_rev_sub ds (ds.scenarioOf p)
+  have hm : ArrMono (ds.connSetOf (ds.scenarioOf p)).rev :=
+    fun x hx y hy => conns_arrMono hwf.toWFSchedule x (hsub x hx) y (hsub y hy)
+  obtain ⟨depT, arrT, bd, j, rfl, hJ⟩ := calculateSingleWith_emits _ _ p _ _ (connSetOf_sorted ds _) hm hmw
+    (fun depT arrT => cleanupPreserves (timeWF_dataset hwf p hmw hmt _ _ _ depT arrT) (sliceOK_dataset hwf p _ _ _ depT arrT)) h
+  obtain ⟨acc, legs, egr, rfl, hacc, hegr, hne, hok, _, _⟩ := hJ
+  refine ⟨legs, ?_⟩
+  exact C06_totals _ p.minWait bd (ds.mwOfTrip p) acc egr legs hacc hegr hne hok.allLegs
+    (fun l hl e he => conns_effWait hwf.toWFSchedule p e (hsub e (hok.mem_enter l hl e he)))
 
 end Tr
